@@ -16,7 +16,7 @@ def dynamic_obligations(metas, tier, wd):
                         'bounded': 'cycle budget n = %d split at %d (Run\'s cycle loop unwound with unwinding assertions); program = nops and idle self-branches; two abstract peripherals' % (n, a)})
     return obs
 PLAN = {
-    'property': 'C06',
+    'property': 'C06', 'bounded_level': 'model_checking',
     'units': [U],
     'harness_files': ['harness/c06.c'], 'contract_files': [], 'spec_files': ['spec/regs_spec.h'],
     'obligations': [], 'dynamic_obligations': dynamic_obligations,
